@@ -184,7 +184,7 @@ def _conds(conds, enc):
     return [_cond_z3(c, enc) for c in conds]
 
 
-def prove_zero(residual, name="identity", extra=(), timeout_ms=20000, use_assumptions=True, conds=()):
+def prove_zero(residual, name="identity", extra=(), timeout_ms=20000, use_assumptions=True, conds=(), retry=True):
     """Is `residual == 0` entailed?  'unsat' means yes (negation unsatisfiable)."""
     enc = Encoder()
     goal = enc.rel("!=", residual)
@@ -192,10 +192,10 @@ def prove_zero(residual, name="identity", extra=(), timeout_ms=20000, use_assump
     if use_assumptions:
         cons += enc.assumptions()
     cons += enc.side_conditions()
-    return check(cons, name=name, timeout_ms=timeout_ms, enc=enc)
+    return check(cons, name=name, timeout_ms=timeout_ms, enc=enc, retry=retry)
 
 
-def prove_equal(a, b, name="identity", extra=(), timeout_ms=20000, use_assumptions=True, conds=()):
+def prove_equal(a, b, name="identity", extra=(), timeout_ms=20000, use_assumptions=True, conds=(), retry=True):
     """Is a == b entailed?  The two terms are handed to the solver un-subtracted,
     so that the solver's own polynomial arithmetic decides the identity."""
     enc = Encoder()
@@ -204,10 +204,10 @@ def prove_equal(a, b, name="identity", extra=(), timeout_ms=20000, use_assumptio
     if use_assumptions:
         cons += enc.assumptions()
     cons += enc.side_conditions()
-    return check(cons, name=name, timeout_ms=timeout_ms, enc=enc)
+    return check(cons, name=name, timeout_ms=timeout_ms, enc=enc, retry=retry)
 
 
-def prove_rel(op, s, name="relation", extra=(), timeout_ms=20000, use_assumptions=True, conds=()):
+def prove_rel(op, s, name="relation", extra=(), timeout_ms=20000, use_assumptions=True, conds=(), retry=True):
     """Is `s op 0` entailed?  ('unsat' = yes)."""
     neg = {"==": "!=", "!=": "==", ">": "<=", ">=": "<", "<": ">=", "<=": ">"}[op]
     enc = Encoder()
@@ -215,17 +215,17 @@ def prove_rel(op, s, name="relation", extra=(), timeout_ms=20000, use_assumption
     if use_assumptions:
         cons += enc.assumptions()
     cons += enc.side_conditions()
-    return check(cons, name=name, timeout_ms=timeout_ms, enc=enc)
+    return check(cons, name=name, timeout_ms=timeout_ms, enc=enc, retry=retry)
 
 
-def satisfiable(rels, name="witness", timeout_ms=20000, use_assumptions=True, conds=()):
+def satisfiable(rels, name="witness", timeout_ms=20000, use_assumptions=True, conds=(), retry=False):
     """Is the conjunction of relations (op, Sym) satisfiable together with the assumptions?"""
     enc = Encoder()
     cons = [enc.rel(o, x) for o, x in rels] + _conds(conds, enc)
     if use_assumptions:
         cons += enc.assumptions()
     cons += enc.side_conditions()
-    return check(cons, name=name, timeout_ms=timeout_ms, enc=enc)
+    return check(cons, name=name, timeout_ms=timeout_ms, enc=enc, retry=retry)
 
 
 def _pins(names, rng):
@@ -270,7 +270,7 @@ def find_model(residual, name="cex", extra=(), timeout_ms=10000, rng=None, tries
     model, pinning is never used for 'unsat'."""
     import random
     rng = rng or random.Random(0)
-    v, env = prove_zero(residual, name=name + ":free", extra=extra, timeout_ms=timeout_ms)
+    v, env = prove_zero(residual, name=name + ":free", extra=extra, timeout_ms=timeout_ms, retry=False)
     if v == "sat":
         return v, env
     if v == "unsat":
@@ -293,7 +293,7 @@ def find_model(residual, name="cex", extra=(), timeout_ms=10000, rng=None, tries
         # pin all but a shrinking suffix
         keep = pins if k == 0 else pins[: max(0, len(pins) - k)]
         v, env = prove_zero(residual, name=name + ":pinned%d" % k, extra=tuple(extra) + tuple(keep),
-                            timeout_ms=timeout_ms)
+                            timeout_ms=timeout_ms, retry=False)
         if v == "sat":
             return v, env
     return "unknown", None
